@@ -30,7 +30,7 @@ def tasks(tier, seed):
                        "weight": 10 ** (N - 2)})
         # two consecutive rounds from the initial state (fresh regions per round): reachable histories
         for cls, ct in (("PaVeBa", None), ("PaVeBaGP", "hyperellipsoid")):
-            if tier == "quick" and cone not in ("orthant2", "theta120"):
+            if tier == "quick" and cone not in ("orthant2", "theta60", "theta120"):
                 continue
             ts.append({"id": f"hist:{cls}[elli,{cone},N=2,rounds=2]", "fn": "induct_task",
                        "args": {"cls_name": cls, "ctype": ct, "cone": cone, "W": W.tolist(), "N": 2, "prop": "C01", "tier": tier,
